@@ -216,7 +216,10 @@ const _fakeFileMaxLines = 64 * 1024
 // Fset for correct reporting.
 func (e *Engine) toPos(position token.Position) token.Pos {
 	info, ok := e.files[position.Filename]
-	if !ok {
+	// A fake file can only hold as many lines as its size, so a position beyond that (e.g., in a
+	// large generated file of an upstream package) needs a new, larger fake file; otherwise the
+	// line lookup below would panic.
+	if !ok || (info.isFake && position.Line > info.file.Size()) {
 		// For incremental build systems like bazel, the pass.Fset contains only the files in
 		// current and _directly_ imported packages (see [gcexportdata] for more details). However,
 		// analyzer facts are imported transitively from all imported packages, and NilAway is able
@@ -224,7 +227,7 @@ func (e *Engine) toPos(position token.Position) token.Pos {
 		// error on a file from a transitively imported package, we need to create a fake file in
 		// the file set.
 		// [gcexportdata]: https://pkg.go.dev/golang.org/x/tools/go/gcexportdata
-		file := e.pass.Fset.AddFile(position.Filename, e.pass.Fset.Base(), _fakeFileMaxLines)
+		file := e.pass.Fset.AddFile(position.Filename, e.pass.Fset.Base(), max(_fakeFileMaxLines, position.Line))
 		// Set up fake lines for the fake file.
 		fakeLines := make([]int, position.Line)
 		for i := range fakeLines {
